@@ -64,6 +64,11 @@ def computeSeqLengths : List Nat → Option (List Nat)
 def batchSizes (lens : List Nat) : List Nat :=
   (List.range (lens.foldl max 0)).map (fun t => lens.countP (fun l => t < l))
 
+/-- the steps `pack_padded_sequence` stores for sequences already ordered by decreasing length:
+step `t` holds element `t` of every sequence that has one (`PackedSequence.data` is their `cat`) -/
+def packSteps {α : Type} (seqs : List (List α)) : List (List α) :=
+  (List.range ((seqs.map List.length).foldl max 0)).map (fun t => seqs.filterMap (·[t]?))
+
 /-! ## one direction of one layer (`forward_layer`) -/
 section Layer
 variable {X S : Type}
@@ -97,8 +102,13 @@ def layerPadded (cell : X → S → S) (h0 : List S) (x : List (List X)) (rev : 
 
 /-- the `for i, seq_len in enumerate(seq_lengths): h_last[i] = h_temp[seq_len - 1][i]` loop into a
 `zeros(max_batch_size, H)` buffer.  `len(seq_lengths) > B` raises; `< B` cannot happen
-(`Lemmas.Rnn.length_cslAux_ge`).  Python's `h_temp[-1]` for `seq_len = 0` is kept. -/
-def gatherLast (B : Nat) (lens : List Nat) (hTemp : List (List S)) : Option (List S) :=
+(`Lemmas.Rnn.length_cslAux_ge`).  Python's `h_temp[-1]` for `seq_len = 0` is kept.
+
+`cast` is the conversion that the assignment into the buffer performs.  As coded the buffer is
+`torch.zeros(B, H)` – *default* dtype – so a float64 state is rounded to float32 when the default
+dtype is float32 (known finding `C13:packed:state-dtype`); the repaired behaviour (buffer of the
+states' dtype) is `cast = id`. -/
+def gatherLast (cast : S → S) (B : Nat) (lens : List Nat) (hTemp : List (List S)) : Option (List S) :=
   if lens.length ≠ B then none else
   optAll ((List.range B).map fun i =>
     match lens[i]? with
@@ -106,10 +116,10 @@ def gatherLast (B : Nat) (lens : List Nat) (hTemp : List (List S)) : Option (Lis
     | some l =>
       match (if l = 0 then hTemp.getLast? else hTemp[l - 1]?) with
       | none => none
-      | some row => row[i]?)
+      | some row => (row[i]?).map cast)
 
 /-- `forward_layer(…, is_packed=True)`; `x` is the split data, `B = max_batch_size` -/
-def layerPacked (B : Nat) (cell : X → S → S) (h0 : List S) (x : List (List X)) (rev : Bool) :
+def layerPacked (cast : S → S) (B : Nat) (cell : X → S → S) (h0 : List S) (x : List (List X)) (rev : Bool) :
     Option (List (List S) × List S) :=
   let xs := if rev then x.reverse else x            -- `tuple(reversed(x))`
   let bs := xs.map List.length                      -- `batch_sizes` (`.flip(0)` if reverse)
@@ -117,7 +127,7 @@ def layerPacked (B : Nat) (cell : X → S → S) (h0 : List S) (x : List (List X
   match computeSeqLengths bs with
   | none => none
   | some lens =>
-    match gatherLast B lens hn with
+    match gatherLast cast B lens hn with
     | none => none
     | some last => some (if rev then hn.reverse else hn, last)
 
@@ -187,7 +197,7 @@ def forwardPadded (cfg : Cfg V S) (bidir : Bool) (L : Nat) (cells : List (V → 
 
 /-- `forward` on a `PackedSequence(data, batch_sizes, sorted_indices, unsorted_indices)`;
 returns the `data` of the output `PackedSequence` (its other three fields are passed through) -/
-def forwardPacked (cfg : Cfg V S) (bidir : Bool) (L : Nat) (cells : List (V → S → S))
+def forwardPacked (cfg : Cfg V S) (cast : S → S) (bidir : Bool) (L : Nat) (cells : List (V → S → S))
     (data : List V) (bs : List Nat) (sortedIdx unsortedIdx : Option (List Nat))
     (init : Option (List (List S))) : Option (List V × List (List S)) :=
   let P := if bidir then 2 else 1
@@ -197,7 +207,7 @@ def forwardPacked (cfg : Cfg V S) (bidir : Bool) (L : Nat) (cells : List (V → 
     match initStates cfg L P B sortedIdx init with
     | none => none
     | some h0s =>
-      match layersLoop cfg (layerPacked B) bidir cells h0s L 0 x [] with
+      match layersLoop cfg (layerPacked cast B) bidir cells h0s L 0 x [] with
       | none => none
       | some (o, hs) =>
         match optAll (hs.map (applyPerm · unsortedIdx)) with
@@ -218,8 +228,9 @@ def specDir {X : Type} (cell : X → S → S) (s0 : S) (xs : List X) (rev : Bool
   if rev then ((scanCell cell s0 xs.reverse).reverse, xs.reverse.foldl (fun s x => cell x s) s0)
   else (scanCell cell s0 xs, xs.foldl (fun s x => cell x s) s0)
 
-/-- stacked layers on one sequence; `s0s[P*l+d]` is that sequence's initial state for (l, d) -/
-def specLoop (cfg : Cfg V S) (bidir : Bool) (cells : List (V → S → S)) (s0s : List S) :
+/-- stacked layers on one sequence; `s0s[P*l+d]` is that sequence's initial state for (l, d).
+`cast` is applied to the reported final states only (`id` = the documented semantics; see `gatherLast`) -/
+def specLoop (cfg : Cfg V S) (cast : S → S) (bidir : Bool) (cells : List (V → S → S)) (s0s : List S) :
     Nat → Nat → List V → List S → Option (List V × List S)
   | 0, _, input, acc => some (input, acc)
   | n + 1, l, input, acc =>
@@ -231,17 +242,17 @@ def specLoop (cfg : Cfg V S) (bidir : Bool) (cells : List (V → S → S)) (s0s 
         match cells[P * l + 1]?, s0s[P * l + 1]? with
         | some c1, some s1 =>
           let r1 := specDir c1 s1 input true
-          specLoop cfg bidir cells s0s n (l + 1)
-            (List.zipWith (fun a b => cfg.cat (cfg.out a) (cfg.out b)) r0.1 r1.1) (acc ++ [r0.2, r1.2])
+          specLoop cfg cast bidir cells s0s n (l + 1)
+            (List.zipWith (fun a b => cfg.cat (cfg.out a) (cfg.out b)) r0.1 r1.1) (acc ++ [cast r0.2, cast r1.2])
         | _, _ => none
-      else specLoop cfg bidir cells s0s n (l + 1) (r0.1.map cfg.out) (acc ++ [r0.2])
+      else specLoop cfg cast bidir cells s0s n (l + 1) (r0.1.map cfg.out) (acc ++ [cast r0.2])
     | _, _ => none
 
-/-- the documented semantics of `torch.nn.RNN/GRU/LSTM` on one sequence -/
-def specForward (cfg : Cfg V S) (bidir : Bool) (L : Nat) (cells : List (V → S → S))
+/-- the documented semantics of `torch.nn.RNN/GRU/LSTM` on one sequence (for `cast = id`) -/
+def specForward (cfg : Cfg V S) (cast : S → S) (bidir : Bool) (L : Nat) (cells : List (V → S → S))
     (s0s : Option (List S)) (xs : List V) : Option (List V × List S) :=
   let P := if bidir then 2 else 1
-  specLoop cfg bidir cells (s0s.getD (List.replicate (L * P) cfg.zero)) L 0 xs []
+  specLoop cfg cast bidir cells (s0s.getD (List.replicate (L * P) cfg.zero)) L 0 xs []
 
 end Forward
 end Opacus.Rnn
